@@ -22,7 +22,7 @@ RULE = ("every dataset of the program uses a ScriptedCache(Cache): a contract-ab
         "right after a set), forget = drop the entry (a set stores nothing). part 'exhaustive-scripts': ALL 5^N scripts "
         "for the first N backend calls (N=5 quick, N=6 thorough; later calls behave) x a fixed family of 3 dataset "
         "graphs x a 4-step history with a repeat; part 'random-scripts': random programs x random histories x random "
-        "scripts of length <=40. Every evaluation must return the reference value without raising. Non-trivial = at "
+        "scripts of length <=40 (a third of them on a backend that inherits exists() from the Cache base class). Every evaluation must return the reference value without raising. Non-trivial = at "
         "least one non-'behave' entry was consumed by a backend call; distinct = distinct (graph, history, script) hash.")
 ASSUMPTIONS = [
     "the backend never returns a value other than the one set for that fingerprint (Cache contract)",
@@ -89,11 +89,17 @@ class ScriptedCache(Cache):
         return f"ScriptedCache({self.name})"
 
 
+class ScriptedCacheInheritedExists(ScriptedCache):
+    """A backend that does not implement exists() itself: the Cache base class answers it by trying get()."""
+    exists = Cache.exists
+
+
 def check(case, ctx):
     spec = specgen.normalise(case["spec"], ctx.flags | {"no-allopts"}, ctx)
     ref = Ref(spec)
     script = Script(case["script"])
-    G = build(spec, cache_factory=lambda name: ScriptedCache(script, name))
+    backend = ScriptedCacheInheritedExists if case.get("inherited_exists") else ScriptedCache
+    G = build(spec, cache_factory=lambda name: backend(script, name))
     if "no-coalesce-value-failure" in ctx.flags and any("absorbed-under-cache" in ref.run(o).labels for o in case["history"]):
         ctx.exclude("no-coalesce-value-failure")
         ctx.done(case, False, ["excluded-K6"])
@@ -121,6 +127,8 @@ def check(case, ctx):
                 raise Violation("value-instead-of-failure", f"{where}: got {out.value} but the reference fails {sorted(r.fails)}")
     for call, f in script.fired:
         labels.add(f"fault-fired:{f}@{call}")
+    if case.get("inherited_exists"):
+        labels.add("backend-inherits-exists")
     ctx.done(case, bool(script.fired), labels)
 
 
@@ -155,7 +163,8 @@ def cases(draw, prof):
     spec = draw(specgen.specs(prof))
     hist = draw(U.histories(min_len=2, max_len=6, p_present=0.9, allow_unmentioned=False))
     script = draw(st.lists(st.sampled_from(FAULTS + ["behave"] * 3), min_size=1, max_size=40))
-    return {"spec": spec, "history": hist, "script": script, "reuse_dict_object": draw(st.booleans())}
+    return {"spec": spec, "history": hist, "script": script, "reuse_dict_object": draw(st.booleans()),
+            "inherited_exists": draw(st.sampled_from([False, False, True]))}
 
 
 PROFILE = specgen.profile(depth=2, domain_rate=0.01, max_defs=5, effects=False)
